@@ -18,13 +18,27 @@ def nearestOK (pos : List (Rat × Rat)) (probes : List Nat) (peak ncw : Nat) (ro
   ((head.zip head.tail).all fun p => decide (l1 pos peak p.1 ≤ l1 pos peak p.2)) &&
   same.all (fun c => head.contains c || head.all fun h => decide (l1 pos peak h ≤ l1 pos peak c))
 
-/-- The probe labels are non-decreasing ALONG THE CHANNEL MAP: a channel with a smaller raw index never carries a
-larger probe label.  This is what a merge produces (`rawInd_inverts_merge`: blocks labelled 0..k-1 with increasing
-offsets); it is exactly the class of tables on which `make_channel_objects` (subtracting the previous label's largest
-raw index + 1) yields no negative index: with an inversion, two consecutive labels `L < L'` have a channel of `L'`
-below the largest raw index of `L`, whose exported index is negative. -/
+/-- The probe labels follow THE CHANNEL MAP: a channel with a smaller probe label has a strictly smaller raw index
+(every probe owns a range of raw indices, the ranges in label order).  This is what a merge produces
+(`merged_probes_ordered`: blocks labelled 0..k-1 with strictly increasing offsets); it is EXACTLY the class of tables on
+which `make_channel_objects` (subtracting the previous label's largest raw index + 1) yields no negative index
+(`rawInd_nonneg_iff_ordered`).  Strict on purpose: two channels of DIFFERENT probes with the SAME raw index (`[0, 0]`,
+probes `[0, 1]`) export `-1` for the second. -/
 def probesOrdered (cm probes : List Nat) : Bool :=
   (List.range cm.length).all fun a => (List.range cm.length).all fun b =>
-    !(decide (cm.getD a 0 < cm.getD b 0)) || decide (probes.getD a 0 ≤ probes.getD b 0)
+    !(decide (probes.getD a 0 < probes.getD b 0)) || decide (cm.getD a 0 < cm.getD b 0)
+
+/-- the largest raw index of probe `q` (0 for a label no channel carries) -/
+def probeMaxRaw (cm probes : List Nat) (q : Nat) : Nat :=
+  (((List.range cm.length).filter fun i => probes.getD i 0 == q).map fun i => cm.getD i 0).foldl max 0
+
+/-- "raw channel indices are re-expressed per probe", as a closed form: the raw index of a channel of the FIRST probe
+(smallest label in use) is exported as it is; the raw index of a channel of any other probe `p` is exported minus
+(largest raw index of the PREVIOUS probe + 1), the previous probe being the largest label in use below `p`. -/
+def perProbeRawInd (cm probes : List Nat) : List Int :=
+  (List.range cm.length).map fun i =>
+    match (probes.filter (· < probes.getD i 0)).max? with
+    | none => (cm.getD i 0 : Int)
+    | some q => (cm.getD i 0 : Int) - ((probeMaxRaw cm probes q + 1 : Nat) : Int)
 
 end PhyVerif.C14
